@@ -32,6 +32,7 @@
 -/
 import Cpf.Scan.Merge
 import Cpf.Lemmas.Pool
+import Cpf.Lemmas.PoolF
 import Cpf.Props.C03
 
 namespace Cpf.Props.C07
@@ -360,6 +361,89 @@ example : ∃ s, Cpf.Scan.Pool.Reach (srcCfg 1) 1 s ∧ s.mainPc = 4 ∧ s.colle
   have s13 := Reach.step s12 (Step.collect rfl (by decide))
   have s14 := Reach.step s13 (Step.finish rfl rfl rfl)
   exact s14
+
+/-! ### the pool with named files (`Cpf.Scan.PoolF`): which files are merged -/
+
+section files
+variable {F : Type} [DecidableEq F]
+open Cpf.Scan.PoolF
+
+/-- no schedule of the file-carrying pool is infinite -/
+theorem C07_poolF_terminates (n : Nat) (ok : F → Bool) (run : Nat → StF F) :
+    ¬ ∀ k, StepF (srcCfg n) ok (run k) (run (k + 1)) :=
+  terminatesF (srcCfg n) ok run
+
+/-- … and it cannot get stuck before the scan returns -/
+theorem C07_poolF_no_deadlock (files : List F) (ok : F → Bool) (w : Nat) (s : StF F)
+    (hr : ReachF (srcCfg files.length) ok files w s) (hnf : s.mainPc ≠ 4) : ∃ s', StepF (srcCfg files.length) ok s s' :=
+  no_deadlockF _ ok files w (by simp [srcCfg]) (C07_caps_ok _) s hr hnf
+
+/-- **C07 (pool, which files)**: when the scan returns, the merged files are — as a multiset — exactly the files of
+    the walk that can be read and parsed, each once; the others were given up on. For every schedule, every
+    number of workers ≥ 1, every list of files. -/
+theorem C07_pool_files (files : List F) (ok : F → Bool) (w : Nat) (hw : 0 < w) (s : StF F)
+    (hr : ReachF (srcCfg files.length) ok files w s) (hret : s.mainPc = 4) :
+    s.collected.Perm (files.filter ok) ∧ s.failed.Perm (files.filter (fun f => !ok f)) :=
+  returned_files _ ok files w (by simp [srcCfg]) hw s hr hret
+
+theorem disjoint_perm {ls ls' : List (Local Id V E)} (hp : ls.Perm ls') (hd : DisjointIds ls) : DisjointIds ls' := by
+  unfold DisjointIds at *
+  exact (List.Perm.flatten (hp.map ids)).nodup_iff.1 hd
+
+/-- **C07 (end to end)**: two scans of the same files — any two schedules, any two worker counts — return graphs
+    that bind every identity to the same entity and hold the same multiset of call links. `g f` is the per-file
+    graph of `f` (a function of the file only: `buildGraph`), `ok f` whether it can be read and parsed. -/
+theorem C07_scan_schedule_independent (files : List F) (ok : F → Bool) (g : F → Local Id V E)
+    (hd : DisjointIds ((files.filter ok).map g))
+    (w₁ w₂ : Nat) (hw₁ : 0 < w₁) (hw₂ : 0 < w₂) (s₁ s₂ : StF F)
+    (hr₁ : ReachF (srcCfg files.length) ok files w₁ s₁) (hr₂ : ReachF (srcCfg files.length) ok files w₂ s₂)
+    (h₁ : s₁.mainPc = 4) (h₂ : s₂.mainPc = 4) :
+    (∀ i, lookup (merge (s₁.collected.map g)).nodes i = lookup (merge (s₂.collected.map g)).nodes i) ∧
+    (merge (s₁.collected.map g)).edges.Perm (merge (s₂.collected.map g)).edges := by
+  have p₁ := (C07_pool_files files ok w₁ hw₁ s₁ hr₁ h₁).1
+  have p₂ := (C07_pool_files files ok w₂ hw₂ s₂ hr₂ h₂).1
+  have p : (s₁.collected.map g).Perm (s₂.collected.map g) := (p₁.trans p₂.symm).map g
+  have hd₁ : DisjointIds (s₁.collected.map g) := disjoint_perm (p₁.map g).symm hd
+  exact ⟨fun i => C07_merge_nodes _ _ p hd₁ i, C07_merge_edges _ _ p⟩
+
+/-- **C08 (end to end)**: a readable file's identities are bound, in the graph a scan returns, to what the file's
+    own graph binds them to — whatever the other files are (readable or not), however many workers leave early,
+    whatever the schedule. -/
+theorem C08_scan_isolation (files : List F) (ok : F → Bool) (g : F → Local Id V E)
+    (hd : DisjointIds ((files.filter ok).map g)) (w : Nat) (hw : 0 < w) (s : StF F)
+    (hr : ReachF (srcCfg files.length) ok files w s) (hret : s.mainPc = 4)
+    (f : F) (hf : f ∈ files) (hok : ok f = true) (i : Id) (hi : i ∈ ids (g f)) :
+    lookup (merge (s.collected.map g)).nodes i = lookup (g f).nodes i := by
+  have p := (C07_pool_files files ok w hw s hr hret).1
+  have hmem : f ∈ s.collected := p.mem_iff.2 (List.mem_filter.2 ⟨hf, hok⟩)
+  exact C08_isolation _ (disjoint_perm (p.map g).symm hd) (g f) (List.mem_map.2 ⟨f, hmem, rfl⟩) i hi
+
+/-- Non-vacuity: two files, the second unreadable, one worker — a complete schedule exists; it merges the first
+    file and gives up on the second. -/
+example : ∃ s : StF Nat, ReachF (srcCfg 2) (fun f => f == 1) [1, 2] 1 s ∧ s.mainPc = 4 ∧ s.collected = [1] ∧ s.failed = [2] := by
+  rw [srcCfg_eq]
+  have s0 := @ReachF.init Nat { n := 2, fileCap := 2, resultCap := 2, statusCap := 5, progressCap := 2 } (fun f => f == 1) [1, 2] 1
+  have s1 := ReachF.step s0 (StepF.queue rfl rfl (by decide))
+  have s2 := ReachF.step s1 (StepF.queue rfl rfl (by decide))
+  have s3 := ReachF.step s2 (StepF.closeFiles rfl rfl)
+  have s4 := ReachF.step s3 (StepF.take 0 rfl rfl)
+  have s5 := ReachF.step s4 (StepF.status1 0 rfl (by decide))
+  have s6 := ReachF.step s5 (StepF.status2 0 rfl rfl (by decide))
+  have s7 := ReachF.step s6 (StepF.status3 0 rfl (by decide))
+  have s8 := ReachF.step s7 (StepF.result 0 rfl (by decide))
+  have s9 := ReachF.step s8 (StepF.progress 0 rfl (by decide))
+  have s10 := ReachF.step s9 (StepF.take 0 rfl rfl)
+  have s11 := ReachF.step s10 (StepF.status1 0 rfl (by decide))
+  have s12 := ReachF.step s11 (StepF.fail 0 rfl rfl)
+  have s13 := ReachF.step s12 (StepF.exit 0 rfl rfl (by decide))
+  have s14 := ReachF.step s13 (StepF.startStatus rfl)
+  have s15 := ReachF.step s14 (StepF.startCloser rfl)
+  have s16 := ReachF.step s15 (StepF.close (by decide) rfl rfl)
+  have s17 := ReachF.step s16 (StepF.collect rfl rfl)
+  have s18 := ReachF.step s17 (StepF.finish rfl rfl rfl)
+  exact ⟨_, s18, rfl, rfl, rfl⟩
+
+end files
 
 /-- every identity is scoped to its file (regenerated; needed for `DisjointIds`) -/
 theorem C07_ids_file_scoped : ∀ l ∈ nodeLits, l.idFmt.any (fun a => match a with | .file => true | _ => false) = true :=
